@@ -24,54 +24,88 @@ EXPLANATION = (
 
 
 def coverage_rules(ck, rule, I, pr, arr, betas, grid_axis_name, func, what):
-    """R04.2 / R05.3: clamp partition.  returns dict(mask kind -> scatter node)"""
+    """R04.2 / R05.3: clamp partition, decided per REGION of the emergence angle
+    (below the table / inside / above): which value does an event of that region end up with?
+    Insensitive to how the array is pre-filled or in which order the stores are written.
+    returns {region: (store node or None, bound node, final value node)}"""
     g = I.g
     base, chain = scatter_chain(arr)
-    ok_base = is_ext_call(base, "numpy.zeros_like", "numpy.empty_like", "numpy.zeros", "numpy.empty")
-    ck.ob(rule, f"{what}: result array starts as a fresh array of the input's shape", ok_base, base, func,
+    fresh = is_ext_call(base, "numpy.zeros_like", "numpy.empty_like", "numpy.zeros", "numpy.empty",
+                        "numpy.full_like", "numpy.full", "numpy.ones_like")
+    ck.ob(rule, f"{what}: result array is allocated in the call (shape of the input)", fresh, base, func,
           g.show(base, 2))
+    fill = None
+    if is_ext_call(base, "numpy.full_like", "numpy.full") and len(base.args) > 2:
+        fill = base.args[2]
+    elif is_ext_call(base, "numpy.zeros_like", "numpy.zeros"):
+        fill = I.const(0)
     masks = [sc.args[1] for sc in chain]
     fs = [pr.formula(m) for m in masks]
-    if len(fs) < 3:
-        ck.ob(rule, f"{what}: three masked stores (valid / below table / above table)", False, arr, func,
-              f"{len(fs)} store(s)")
-        return {}
-    t = pr.tautology(("or",) + tuple(fs))
-    ck.ob(rule, f"{what}: the store masks cover every event", bool(t and t[0]), arr, func,
-          "" if (t and t[0]) else f"uncovered when {pr.show_env(t[1]) if t and t[1] else '?'}")
-    # classify: low = betas < axis[0], high = axis[-1] < betas
-    kinds = {}
-    for sc, f in zip(chain, fs):
-        at = pr.atoms_of(f)
-        if f[0] == "atom" and len(at) == 1:
-            kind, a, b = pr.atoms[at[0]]
+    # bounds: comparisons of the angle array against something
+    lows, highs = {}, {}
+    for f in fs:
+        for k in pr.atoms_of(f):
+            kind, a, b = pr.atoms[k]
             if kind == "lt" and a is betas:
-                kinds["low"] = (sc, b)
+                lows[k] = b
             elif kind == "lt" and b is betas:
-                kinds["high"] = (sc, a)
-        else:
-            kinds["valid"] = (sc, None)
-    ck.ob(rule, f"{what}: stores are (valid, betas < lower bound, betas > upper bound)",
-          set(kinds) == {"low", "high", "valid"}, arr, func, f"found {sorted(kinds)}")
-    if set(kinds) != {"low", "high", "valid"}:
-        return kinds
-    fv = pr.formula(kinds["valid"][0].args[1])
-    for k in ("low", "high"):
-        d = pr.disjoint(fv, pr.formula(kinds[k][0].args[1]))
-        ck.ob(rule, f"{what}: 'valid' is disjoint from the {k}-angle clamp", bool(d and d[0]),
-              kinds["valid"][0], func, "")
+                highs[k] = a
+    if len(lows) != 1 or len(highs) != 1:
+        ck.ob(rule, f"{what}: one lower and one upper angle bound", False, arr, func,
+              f"{len(lows)} lower / {len(highs)} upper comparison(s) against the angle array")
+        return {}
+    (klo, lo_b), = lows.items()
+    (khi, hi_b), = highs.items()
+    low, high = ("atom", klo), ("atom", khi)
+    # first node < last node of a table axis (strictly increasing axes are audited under C18), so an
+    # angle cannot be below the first and above the last node at once
+    regions = {"low": ("and", low, ("not", high)), "high": ("and", high, ("not", low)),
+               "valid": ("and", ("not", low), ("not", high))}
+    out = {}
+    for rname, rf in regions.items():
+        final = None
+        partial = None
+        for sc, f in reversed(list(zip(chain, fs))):
+            imp = pr.implies(rf, f)
+            if imp and imp[0]:
+                final = sc
+                break
+            dj = pr.disjoint(rf, f)
+            if not (dj and dj[0]):
+                partial = sc
+                break
+        label = {"low": "below the table's first angle", "high": "above the table's last angle",
+                 "valid": "inside the table's angle range"}[rname]
+        if partial is not None:
+            ck.ob(rule, f"{what}: every event {label} gets one well-defined value", False, partial, func,
+                  f"the store under '{g.show(partial.args[1], 2)}' covers only part of that region")
+            continue
+        if final is None and (fill is None or (fill.op == "Const" and fill.attr == 0)):
+            ck.ob(rule, f"{what}: every event {label} is assigned a value", False, arr, func,
+                  "no store covers that region: the events keep the array's initial "
+                  + ("zeros" if fill is not None else "uninitialised contents"))
+            continue
+        val = final.args[2] if final is not None else fill
+        ck.ob(rule, f"{what}: every event {label} is assigned a value", True, final if final is not None else base,
+              func, f"value: {g.show(val, 2)}")
+        out[rname] = (final, lo_b if rname == "low" else (hi_b if rname == "high" else None), val)
+        if rname == "valid" and final is not None:
+            inside = pr.implies(pr.formula(final.args[1]), rf)
+            ck.ob(rule, f"{what}: the in-table computation is applied to in-table angles only (out-of-table "
+                  "angles would make the look-up raise)", bool(inside and inside[0]), final, func,
+                  "" if (inside and inside[0]) else f"store mask '{g.show(final.args[1], 2)}' also selects "
+                  "angles outside the table")
 
     def axis_end(n, want_idx):
         # n == grid[axis][want_idx]
         return (n.op == "Subscript" and n.args[1].op == "Const" and n.args[1].attr == want_idx and
                 n.args[0].op == "Subscript" and n.args[0].args[1].op == "Const" and
                 n.args[0].args[1].attr == grid_axis_name)
-    lo_b, hi_b = kinds["low"][1], kinds["high"][1]
     ck.ob(rule, f"{what}: lower bound is the first node of the table's '{grid_axis_name}' axis",
           axis_end(lo_b, 0), lo_b, func, g.show(lo_b, 3))
     ck.ob(rule, f"{what}: upper bound is the last node of the table's '{grid_axis_name}' axis",
           axis_end(hi_b, -1), hi_b, func, g.show(hi_b, 3))
-    return kinds
+    return out
 
 
 def is_f32_eps(n):
@@ -116,9 +150,16 @@ def run(ck, ctx):
         pr = Pred(I)
         kinds = coverage_rules(ck, "R04.2", I, pr, z, T.betas, "beta_rad", func, "tau energy fraction")
         if "high" in kinds:
-            v = kinds["high"][0].args[2]
+            v = kinds["high"][2]
             ck.ob("R04.2", "angles above the table get the float32-eps constant (negligible energy)",
-                  is_f32_eps(v), kinds["high"][0], func, g.show(v, 3))
+                  is_f32_eps(v), kinds["high"][0] or z, func, g.show(v, 3))
+        if "low" in kinds:
+            v = kinds["low"][2]
+            fulls = [n for n in walk([v]) if is_ext_call(n, "numpy.full", "numpy.full_like")]
+            okl = any(g.same(n.args[2], kinds["low"][1]) for n in fulls if len(n.args) > 2)
+            ck.ob("R04.2", "angles below the table are sampled from the table's minimum-angle distribution", okl,
+                  kinds["low"][0] or z, func, "sampler called with beta = " +
+                  (", ".join(g.show(n.args[2], 2) for n in fulls if len(n.args) > 2) or "?"))
         # ---- R04.1 mask consistency
         lc = LenClass(I, rowwise_select_funcs={"vec_1d_interp"})
         for n in (T.betas, T.log_e_nu, T.u):
@@ -144,7 +185,7 @@ def run(ck, ctx):
                       "event gets would depend on its position in the batch or buffer chunk",
                       construct=f"{fn}: positional index on a per-event array")
         n_sites = 0
-        stores = {k: v[0] for k, v in kinds.items() if k in ("valid", "low")}
+        stores = {k: v[0] for k, v in kinds.items() if k in ("valid", "low") and v[0] is not None}
         if len(stores) < 2:
             stores = {f"store{i}": sc for i, sc in enumerate(scatter_chain(z)[1])
                       if any(n.op == "NdIter" for n in walk([sc.args[2]]))}
